@@ -51,6 +51,8 @@ pub enum ReloadKind {
     RefusedEmpty,
     RefusedGarbage,
     RefusedMissing,
+    /// (second reload only) the file is put back to exactly what it was at start-up
+    BackToStartup,
 }
 
 #[derive(Clone, Copy, Debug, PartialEq, Eq)]
@@ -122,10 +124,12 @@ fn mix(mut x: u64) -> u64 {
 pub fn client_datagram(magic: u32, base_seq: u32, k: u64) -> Vec<u8> {
     let h = mix(k ^ ((magic as u64) << 32));
     let ctl = h % 23 == 0;
-    let len = match (h >> 8) % 8 {
+    // 24 .. MTU (1500) bytes: the whole range the property quantifies over that can carry the index
+    let len = match (h >> 8) % 10 {
         0 => 24 + ((h >> 16) % 40) as usize,
         1 => 24 + ((h >> 16) % 600) as usize,
-        2 => 1316 + 16 + ((h >> 16) % 100) as usize,
+        2 => 1316 + 16 + ((h >> 16) % 169) as usize, // 1332 ..= 1500
+        3 => [1472usize, 1473, 1499, 1500][((h >> 16) % 4) as usize],
         _ => 1316 + 16,
     };
     let mut v = vec![0u8; len];
@@ -183,6 +187,8 @@ struct Link {
     repaired_tick: Option<u32>,
     rereg_tick: Option<u32>,
     teardowns: u32,
+    /// value of `teardowns` when the latest reload was signalled (survivors must not add to it)
+    teardowns_base: u32,
     last_k: HashMap<SocketAddr, u64>,
     ka_tick: Option<u32>,
     ka_ts: Option<u64>,
@@ -260,6 +266,8 @@ pub struct Session {
     reload_prev: Vec<Ipv4Addr>,
     reload_refused: bool,
     reload_checked: bool,
+    reload_round: u32,
+    startup_ips: Vec<Ipv4Addr>,
     /// per-socket kernel drop counters of this session's sockets (max seen per inode)
     sock_drops: HashMap<u64, u64>,
     my_ports: Vec<u16>,
@@ -273,6 +281,7 @@ pub struct Session {
     ctl_mode_ack_tick: Option<u32>,
     ctl_timeout_acked: bool,
     ctl_fault_tick: Option<u32>,
+    ctl_guard_desc: String,
     stats_mode: String,
     err_answers_left: u32,
     /// REG3 frames the receiver side sent while the client was sending (each (re-)registers its uplink,
@@ -440,6 +449,8 @@ impl Session {
             reload_prev: Vec::new(),
             reload_refused: false,
             reload_checked: false,
+            reload_round: 0,
+            startup_ips: Vec::new(),
             sock_drops: HashMap::new(),
             my_ports: Vec::new(),
             cur_timeout_ms: 0,
@@ -452,6 +463,7 @@ impl Session {
             ctl_mode_ack_tick: None,
             ctl_timeout_acked: false,
             ctl_fault_tick: None,
+            ctl_guard_desc: String::new(),
             stats_mode: String::new(),
             err_answers_left: 0,
             reg3_while_sending: 0,
@@ -463,6 +475,7 @@ impl Session {
             o,
         };
         s.cur_timeout_ms = s.o.timeout_ms;
+        s.startup_ips = s.links.iter().filter_map(|l| l.ip).collect();
         s.my_ports = vec![srt_port, rport, s.client.local_addr().map(|a| a.port()).unwrap_or(0)];
         // wait for the control socket, subscribe to the stats topic (the sender's logical clock)
         let deadline = now_us() + 20_000_000 * s.o.slow;
@@ -551,13 +564,19 @@ impl Session {
                     && li == self.fault_link
                     && let Some(ft) = self.ctl_fault_tick.take()
                 {
-                    // detection delay in sender ticks under the NEW timeout
+                    // detection latency under the NEW timeout: from the receiver side's last datagram to this
+                    // link (the latest the sender can have heard from it) to the first frame from the re-opened
+                    // socket (kernel timestamp). Lawful: >= timeout (C08 rule above) and <= timeout + one
+                    // housekeeping period + processing; the start-up value (6000) or the built-in default
+                    // (5000) would take >= 5 s. Also counted in sender ticks.
                     let took = self.ticks.saturating_sub(ft);
-                    let bound = self.ctl_new_timeout.div_ceil(1000) as u32 + 3;
+                    let latency_ms = ts.saturating_sub(last_reply) / 1000;
+                    let bound_ms = self.ctl_new_timeout + 2500;
                     self.count("C18.control_timeout_effect_checked");
                     self.add("C18.control_detection_ticks_total", took as u64);
-                    if took > bound && self.timing_reliable() {
-                        let d = format!("set_conn_timeout was answered with {} ms, yet the black-holed link {li} was only torn down {took} sender ticks after the fault began (bound {bound}); the start-up value was {} ms", self.ctl_new_timeout, self.o.timeout_ms);
+                    self.add("C18.control_detection_latency_ms_total", latency_ms);
+                    if latency_ms > bound_ms && self.timing_reliable() {
+                        let d = format!("set_conn_timeout was answered with {} ms (stall guard {}), yet the black-holed link {li} was only torn down {latency_ms} ms after the last datagram it can have heard ({took} sender ticks after the fault began; lawful: {} .. {bound_ms} ms); the start-up value was {} ms", self.ctl_new_timeout, self.ctl_guard_desc, self.ctl_new_timeout, self.o.timeout_ms);
                         self.viol("C18", "C18.live.set-conn-timeout-not-effective", d);
                     } else {
                         self.count("C18.control_changes_effective");
@@ -1265,7 +1284,19 @@ impl Session {
                         if in_phase >= 4 && !self.reload_checked {
                             self.check_reload();
                         }
-                        let added_ok = self.links.iter().all(|l| l.added_at_tick.is_none() || (l.registered && l.st_connected));
+                        let added_ok = self.links.iter().all(|l| l.added_at_tick.is_none() || !l.listed || (l.registered && l.st_connected));
+                        if self.reload_checked && (added_ok || in_phase > 14) && self.reload_round == 0 && !self.reload_refused_all() {
+                            // second reload: half of the time back to exactly the start-up file, else another edit
+                            self.reload_round = 1;
+                            self.reload_checked = false;
+                            for l in self.links.iter_mut() {
+                                l.added_at_tick = None;
+                            }
+                            let kind = if self.rng.chance(1, 2) { ReloadKind::BackToStartup } else { *self.rng.pick(&[ReloadKind::Remove, ReloadKind::Add, ReloadKind::Replace, ReloadKind::Messy, ReloadKind::RefusedGarbage]) };
+                            self.do_reload(kind);
+                            self.set_phase(3);
+                            return;
+                        }
                         if self.reload_checked && (added_ok || in_phase > 14) {
                             if !added_ok && self.timing_reliable() {
                                 let d = format!("an address added by the reload never registered within {} sender ticks: {:?}", in_phase, self.links.iter().filter(|l| l.added_at_tick.is_some()).map(|l| (l.ip, l.cur_addr, l.registered, l.st_connected)).collect::<Vec<_>>());
@@ -1361,14 +1392,22 @@ impl Session {
                 let m = if self.o.classic { "enhanced" } else { "classic" };
                 self.ctl_new_mode = Some(m.to_string());
                 let q = self.rng.chance(1, 2);
+                // the stall guard is switched too, before or after the timeout, on or off: every setting must take
+                // effect whatever the others are
+                let g = self.rng.chance(1, 2);
+                let guard_first = self.rng.chance(1, 2);
+                let guard_req = format!("{{\"jsonrpc\":\"2.0\",\"method\":\"set_stall_deselect\",\"params\":{{\"enabled\":{g}}},\"id\":104}}\n");
+                self.ctl_guard_desc = format!("{} (set {} the timeout; start-up: {})", if g { "on" } else { "off" }, if guard_first { "before" } else { "after" }, if self.o.no_stall { "off" } else { "on" });
                 let req = format!(
-                    "{{\"jsonrpc\":\"2.0\",\"method\":\"set_conn_timeout\",\"params\":{{\"ms\":{}}},\"id\":101}}\n{{\"jsonrpc\":\"2.0\",\"method\":\"set_mode\",\"params\":{{\"mode\":\"{m}\"}},\"id\":102}}\n{{\"jsonrpc\":\"2.0\",\"method\":\"set_quality\",\"params\":{{\"enabled\":{q}}},\"id\":103}}\n",
-                    self.ctl_new_timeout
+                    "{}{{\"jsonrpc\":\"2.0\",\"method\":\"set_conn_timeout\",\"params\":{{\"ms\":{}}},\"id\":101}}\n{}{{\"jsonrpc\":\"2.0\",\"method\":\"set_mode\",\"params\":{{\"mode\":\"{m}\"}},\"id\":102}}\n{{\"jsonrpc\":\"2.0\",\"method\":\"set_quality\",\"params\":{{\"enabled\":{q}}},\"id\":103}}\n",
+                    if guard_first { guard_req.as_str() } else { "" },
+                    self.ctl_new_timeout,
+                    if guard_first { "" } else { guard_req.as_str() },
                 );
                 if let Some(c) = self.ctl.as_mut() {
                     let _ = c.write_all(req.as_bytes());
                 }
-                self.ev(format!("control: set_conn_timeout {} set_mode {m} set_quality {q}", self.ctl_new_timeout));
+                self.ev(format!("control: set_conn_timeout {} set_mode {m} set_quality {q} stall guard {}", self.ctl_new_timeout, self.ctl_guard_desc));
             }
         }
     }
@@ -1413,6 +1452,7 @@ impl Session {
                 }
             }
             ReloadKind::RefusedEmpty | ReloadKind::RefusedGarbage | ReloadKind::RefusedMissing => refused = true,
+            ReloadKind::BackToStartup => new = self.startup_ips.clone(),
         }
         match kind {
             ReloadKind::RefusedEmpty => text = "\n   \n\t\n".into(),
@@ -1440,6 +1480,9 @@ impl Session {
         } else {
             let _ = std::fs::write(&self.ips_path, &text);
         }
+        for l in self.links.iter_mut() {
+            l.teardowns_base = l.teardowns;
+        }
         self.reload_kind = Some(kind);
         self.reload_refused = refused;
         self.reload_expect = if refused { cur.clone() } else { new.clone() };
@@ -1448,7 +1491,18 @@ impl Session {
         if !refused {
             for ip in &new {
                 if !cur.contains(ip) {
-                    self.links.push(Link { ip: Some(*ip), listed: true, added_at_tick: Some(self.ticks), ..Default::default() });
+                    if let Some(li) = self.link_of_ip(IpAddr::V4(*ip)) {
+                        // an address that was removed earlier comes back
+                        let l = &mut self.links[li];
+                        l.listed = true;
+                        l.removed_after_push = None;
+                        l.added_at_tick = Some(self.ticks);
+                        l.registered = false;
+                        l.cur_addr = None;
+                        l.pristine = false;
+                    } else {
+                        self.links.push(Link { ip: Some(*ip), listed: true, added_at_tick: Some(self.ticks), ..Default::default() });
+                    }
                 }
             }
             for ip in &cur {
@@ -1471,9 +1525,19 @@ impl Session {
         self.ev(format!("reload {kind:?}: {cur:?} -> {:?} (refused expected: {refused})", self.reload_expect));
     }
 
+    fn reload_refused_all(&self) -> bool {
+        false
+    }
+
     fn check_reload(&mut self) {
         self.reload_checked = true;
         self.count("C19.reloads_checked");
+        if self.reload_round == 1 {
+            self.count("C19.second_reloads_checked");
+        }
+        if self.reload_kind == Some(ReloadKind::BackToStartup) {
+            self.count("C19.back_to_startup_reloads_checked");
+        }
         let got: Vec<IpAddr> = self.stats_ips.clone();
         let want: Vec<IpAddr> = self.reload_expect.iter().map(|i| IpAddr::V4(*i)).collect();
         let mut g = got.clone();
@@ -1488,8 +1552,8 @@ impl Session {
         // survivors undisturbed: same socket, no re-registration
         for li in 0..self.links.len() {
             let l = &self.links[li];
-            if l.listed && l.added_at_tick.is_none() && l.teardowns > 0 {
-                let d = format!("reload {:?}: surviving uplink {li} ({:?}) re-opened its socket {} time(s) although its address stayed in the list", self.reload_kind, l.ip, l.teardowns);
+            if l.listed && l.added_at_tick.is_none() && l.teardowns > l.teardowns_base {
+                let d = format!("reload {:?}: surviving uplink {li} ({:?}) re-opened its socket {} time(s) although its address stayed in the list", self.reload_kind, l.ip, l.teardowns - l.teardowns_base);
                 self.viol("C19", "C19.live.survivor-disturbed", d);
             }
         }
